@@ -2,7 +2,7 @@ import Pearl.Proofs.FsLemmas
 /-
 C07: blob files are append-only logs, on the file / trace layer (L6, `Pearl/Model/Fs.lean`).
 
-`Fs.run dup limit klen unc ops` = state and trace after `init` on an empty directory and an arbitrary
+`Fs.run dup limit klen unc rs ops` = state and trace after `init` on an empty directory and an arbitrary
 list of driver-level operations.
 -/
 namespace Pearl
@@ -13,18 +13,18 @@ open Fs
     end of the file, a sync publishing exactly the current size, reopening an existing file; and the
     sizes it ends with are the `size` counters of the model (so the offsets in the trace are the real
     file lengths). -/
-theorem blob_events_append_only (dup : Bool) (limit klen : Nat) (unc : Bool) (ops : List FsOp) :
-    ∃ m, replay (fun _ => none) (run dup limit klen unc ops).2 = some m ∧
-      ∀ id, m id = ((run dup limit klen unc ops).1.disk.files id).map (·.size) :=
-  (run_diskInv dup limit klen unc ops).replay
+theorem blob_events_append_only (dup : Bool) (limit klen : Nat) (unc rs : Bool) (ops : List FsOp) :
+    ∃ m, replay (fun _ => none) (run dup limit klen unc rs ops).2 = some m ∧
+      ∀ id, m id = ((run dup limit klen unc rs ops).1.disk.files id).map (·.size) :=
+  (run_diskInv dup limit klen unc rs ops).replay
 
 /-- spelled out for writes: the offset of every write to a blob file is the size of that file after the
     events before it (no write below the end, no hole) -/
-theorem write_at_end_of_file (dup : Bool) (limit klen : Nat) (unc : Bool) (ops : List FsOp)
+theorem write_at_end_of_file (dup : Bool) (limit klen : Nat) (unc rs : Bool) (ops : List FsOp)
     (id off len : Nat) (pre post : List Event)
-    (h : (run dup limit klen unc ops).2 = pre ++ Event.write (.blob id) off len :: post) :
+    (h : (run dup limit klen unc rs ops).2 = pre ++ Event.write (.blob id) off len :: post) :
     ∃ m, replay (fun _ => none) pre = some m ∧ m id = some off := by
-  obtain ⟨mf, hm, _⟩ := blob_events_append_only dup limit klen unc ops
+  obtain ⟨mf, hm, _⟩ := blob_events_append_only dup limit klen unc rs ops
   rw [h] at hm
   obtain ⟨m1, m2, h1, h2, _⟩ := replay_split hm
   refine ⟨m1, h1, ?_⟩
@@ -36,11 +36,11 @@ theorem write_at_end_of_file (dup : Bool) (limit klen : Nat) (unc : Bool) (ops :
   · cases h2
 
 /-- spelled out for creations: a blob file is only created under an id that does not exist -/
-theorem create_of_new_id (dup : Bool) (limit klen : Nat) (unc : Bool) (ops : List FsOp)
+theorem create_of_new_id (dup : Bool) (limit klen : Nat) (unc rs : Bool) (ops : List FsOp)
     (id : Nat) (pre post : List Event)
-    (h : (run dup limit klen unc ops).2 = pre ++ Event.create (.blob id) :: post) :
+    (h : (run dup limit klen unc rs ops).2 = pre ++ Event.create (.blob id) :: post) :
     ∃ m, replay (fun _ => none) pre = some m ∧ m id = none := by
-  obtain ⟨mf, hm, _⟩ := blob_events_append_only dup limit klen unc ops
+  obtain ⟨mf, hm, _⟩ := blob_events_append_only dup limit klen unc rs ops
   rw [h] at hm
   obtain ⟨m1, m2, h1, h2, _⟩ := replay_split hm
   refine ⟨m1, h1, ?_⟩
@@ -51,14 +51,14 @@ theorem create_of_new_id (dup : Bool) (limit klen : Nat) (unc : Bool) (ops : Lis
 
 /-- The `size` counter of every blob file (hence, by `blob_events_append_only`, the offset of the next write
     to it) is the length of the blob's L5 content: the offsets in the trace are byte-exact. -/
-theorem file_size_is_content_length (dup : Bool) (limit klen : Nat) (unc : Bool) (ops : List FsOp) :
-    ∀ b ∈ (run dup limit klen unc ops).1.store.blobs,
-      ∃ f, (run dup limit klen unc ops).1.disk.files b.id = some f ∧ f.size = (content klen b).length := by
+theorem file_size_is_content_length (dup : Bool) (limit klen : Nat) (unc rs : Bool) (ops : List FsOp) :
+    ∀ b ∈ (run dup limit klen unc rs ops).1.store.blobs,
+      ∃ f, (run dup limit klen unc rs ops).1.disk.files b.id = some f ∧ f.size = (content klen b).length := by
   intro b hb
-  have h := run_full dup limit klen unc ops (b.id, b.recs) (List.mem_map_of_mem (f := fun b => (b.id, b.recs)) hb)
-  rw [(run_config dup limit klen unc ops).1] at h
+  have h := run_full dup limit klen unc rs ops (b.id, b.recs) (List.mem_map_of_mem (f := fun b => (b.id, b.recs)) hb)
+  rw [(run_config dup limit klen unc rs ops).1] at h
   simp only [szOf] at h
-  cases hf : (run dup limit klen unc ops).1.disk.files b.id with
+  cases hf : (run dup limit klen unc rs ops).1.disk.files b.id with
   | none => rw [hf] at h; cases h
   | some f =>
     rw [hf] at h
@@ -68,24 +68,24 @@ theorem file_size_is_content_length (dup : Bool) (limit klen : Nat) (unc : Bool)
 /-- The model never drops a file action: `Disk.exec` ignores an action whose file is missing (or, for a
     creation, already there), but on every run every action an operation issues is enabled when it is
     issued. -/
-theorem no_action_dropped (dup : Bool) (limit klen : Nat) (unc : Bool) (ops : List FsOp) (op : FsOp) :
-    ∃ as, (emit (run dup limit klen unc ops).1 op).1.disk = ((run dup limit klen unc ops).1.disk.runActs as).1 ∧
-      (emit (run dup limit klen unc ops).1 op).2 = ((run dup limit klen unc ops).1.disk.runActs as).2 ∧
-      AllEnabled (run dup limit klen unc ops).1.disk as :=
-  run_enabled dup limit klen unc ops op
+theorem no_action_dropped (dup : Bool) (limit klen : Nat) (unc rs : Bool) (ops : List FsOp) (op : FsOp) :
+    ∃ as, (emit (run dup limit klen unc rs ops).1 op).1.disk = ((run dup limit klen unc rs ops).1.disk.runActs as).1 ∧
+      (emit (run dup limit klen unc rs ops).1 op).2 = ((run dup limit klen unc rs ops).1.disk.runActs as).2 ∧
+      AllEnabled (run dup limit klen unc rs ops).1.disk as :=
+  run_enabled dup limit klen unc rs ops op
 
 /-- The byte content of every blob file (L5: `content klen b` = blob header followed by the records of `b`
     with their payloads, `blobBytes`) only grows: along any continuation of a run, every blob is continued
     by a blob with the same id whose file content has the old content as a prefix. -/
-theorem content_monotone (dup : Bool) (limit klen : Nat) (unc : Bool) (ops more : List FsOp) (k : Nat) :
-    ∀ b ∈ (run dup limit klen unc ops).1.store.blobs,
-      ∃ b' ∈ (run dup limit klen unc (ops ++ more)).1.store.blobs,
+theorem content_monotone (dup : Bool) (limit klen : Nat) (unc rs : Bool) (ops more : List FsOp) (k : Nat) :
+    ∀ b ∈ (run dup limit klen unc rs ops).1.store.blobs,
+      ∃ b' ∈ (run dup limit klen unc rs (ops ++ more)).1.store.blobs,
         b'.id = b.id ∧ content k b <+: content k b' := by
   intro b hb
   rw [run_append]
-  obtain ⟨sops, hs⟩ := runFrom_store (run dup limit klen unc ops) more
+  obtain ⟨sops, hs⟩ := runFrom_store (run dup limit klen unc rs ops) more
   rw [hs]
-  obtain ⟨b', hb', hid, hp⟩ := store_run_log (run_WF' dup limit klen unc ops) sops b hb
+  obtain ⟨b', hb', hid, hp⟩ := store_run_log (run_WF' dup limit klen unc rs ops) sops b hb
   exact ⟨b', hb', hid, content_prefix k hp⟩
 
 /-- Queries (`read`, `read_with`, `contains`, `read_all`, `read_all_with_deletion_marker`, counters) are
@@ -94,35 +94,35 @@ theorem content_monotone (dup : Bool) (limit klen : Nat) (unc : Bool) (ops more 
 theorem queries_emit_nothing (s : FsState) : emit s .query = (s, []) := emit_query s
 
 /-- … so queries can be inserted anywhere in a run without changing its state or its trace. -/
-theorem queries_transparent (dup : Bool) (limit klen : Nat) (unc : Bool) (ops more : List FsOp) :
-    run dup limit klen unc (ops ++ .query :: more) = run dup limit klen unc (ops ++ more) := by
+theorem queries_transparent (dup : Bool) (limit klen : Nat) (unc rs : Bool) (ops more : List FsOp) :
+    run dup limit klen unc rs (ops ++ .query :: more) = run dup limit klen unc rs (ops ++ more) := by
   rw [run_append, run_append, runFrom_cons, emit_query]
   simp
 
 /-- Blob ids are never reused: the ids of the blob files created during a run are strictly increasing
     in creation order, … -/
-theorem ids_never_reused (dup : Bool) (limit klen : Nat) (unc : Bool) (ops : List FsOp) :
-    (createdIds (run dup limit klen unc ops).2).Pairwise (· < ·) :=
-  (run_inv dup limit klen unc ops).sorted
+theorem ids_never_reused (dup : Bool) (limit klen : Nat) (unc rs : Bool) (ops : List FsOp) :
+    (createdIds (run dup limit klen unc rs ops).2).Pairwise (· < ·) :=
+  (run_inv dup limit klen unc rs ops).sorted
 
 /-- … every id created by an operation is greater than the id of every blob file present before the
     operation, … -/
-theorem created_id_above_existing (dup : Bool) (limit klen : Nat) (unc : Bool) (ops : List FsOp) (op : FsOp)
-    (id : Nat) (h : id ∈ createdIds (emit (run dup limit klen unc ops).1 op).2) :
-    ∀ j, ((run dup limit klen unc ops).1.disk.files j).isSome → j < id :=
-  ((emit_stepOK (run_inv dup limit klen unc ops).coh op).created id h).2
+theorem created_id_above_existing (dup : Bool) (limit klen : Nat) (unc rs : Bool) (ops : List FsOp) (op : FsOp)
+    (id : Nat) (h : id ∈ createdIds (emit (run dup limit klen unc rs ops).1 op).2) :
+    ∀ j, ((run dup limit klen unc rs ops).1.disk.files j).isSome → j < id :=
+  ((emit_stepOK (run_inv dup limit klen unc rs ops).coh op).created id h).2
 
 /-- … the id used is the store's `nextId` (`next_blob_name`): whenever a program creates a blob file it
     runs `newBlobP`, whose events are create / header / fsync of file `nextId`, … -/
-theorem created_id_is_nextId (dup : Bool) (limit klen : Nat) (unc : Bool) (ops : List FsOp) (op : Op) :
-    (newBlobP op (run dup limit klen unc ops).1).2 = hdr3 (run dup limit klen unc ops).1.store.nextId := by
-  rw [newBlobP_eq (run_inv dup limit klen unc ops).coh]
+theorem created_id_is_nextId (dup : Bool) (limit klen : Nat) (unc rs : Bool) (ops : List FsOp) (op : Op) :
+    (newBlobP op (run dup limit klen unc rs ops).1).2 = hdr3 (run dup limit klen unc rs ops).1.store.nextId := by
+  rw [newBlobP_eq (run_inv dup limit klen unc rs ops).coh]
 
 /-- … and every blob file present is below `nextId`. -/
-theorem existing_ids_below_nextId (dup : Bool) (limit klen : Nat) (unc : Bool) (ops : List FsOp) (j : Nat)
-    (h : ((run dup limit klen unc ops).1.disk.files j).isSome) :
-    j < (run dup limit klen unc ops).1.store.nextId :=
-  (run_inv dup limit klen unc ops).coh.fresh j h
+theorem existing_ids_below_nextId (dup : Bool) (limit klen : Nat) (unc rs : Bool) (ops : List FsOp) (j : Nat)
+    (h : ((run dup limit klen unc rs ops).1.disk.files j).isSome) :
+    j < (run dup limit klen unc rs ops).1.store.nextId :=
+  (run_inv dup limit klen unc rs ops).coh.fresh j h
 
 /-! ### non-vacuity -/
 
@@ -131,9 +131,9 @@ def C07Demo.ops : List FsOp :=
    .delete 10 6 none false, .force (fun _ => true), .restart false, .write 12 7 (some (some [1, 2])) ⟨0, 0⟩ true]
 
 -- four blob files are created in that run, with ids 0, 1, 2, 3
-example : createdIds (run true 100 4 true C07Demo.ops).2 = [0, 1, 2, 3] := by decide +kernel
+example : createdIds (run true 100 4 true true C07Demo.ops).2 = [0, 1, 2, 3] := by decide +kernel
 -- the trace contains writes at non-trivial offsets (so `write_at_end_of_file` says something)
-example : Event.write (.blob 0) 5168 69 ∈ (run true 100 4 true C07Demo.ops).2 := by decide +kernel
+example : Event.write (.blob 0) 5168 69 ∈ (run true 100 4 true true C07Demo.ops).2 := by decide +kernel
 -- the acceptor does refuse a write below the end of the file and the creation of an existing file
 example : replay (fun _ => none) [.create (.blob 0), .write (.blob 0) 0 20, .write (.blob 0) 10 5] = none := by
   decide
@@ -141,7 +141,7 @@ example : replay (fun _ => none) [.create (.blob 0), .write (.blob 0) 0 20, .cre
   decide
 -- content really grows: blob 0 of the demo run is 5237 bytes long after starting with 20
 example : (content 4 { id := 0, recs := [] }).length = 20 := by decide +kernel
-example : ∃ b ∈ (run true 100 4 true C07Demo.ops).1.store.blobs, b.id = 0 ∧ b.recs.length = 3 := by
+example : ∃ b ∈ (run true 100 4 true true C07Demo.ops).1.store.blobs, b.id = 0 ∧ b.recs.length = 3 := by
   decide +kernel
 
 end Pearl
